@@ -39,6 +39,14 @@ func collect() {
 	methodSource("s/p2pkeswarm", "Swarm", "MTU", "src_ke_mtu")
 	methodSource("s/multiswarm", "multiSwarm", "MTU", "src_multi_mtu")
 
+	// C08: the guards in front of every index / slice of the fragmenting receivers
+	methodSource("s/fragswarm", "aggregator", "addPart", "src_frag_addpart")
+	methodSource("s/fragswarm", "", "parseMessage", "src_frag_parse")
+	methodSource("p/mbapp", "collector", "addPart", "src_mb_addpart")
+	methodSource("p/mbapp", "", "ParseMessage", "src_mb_parse")
+	methodSource("p/mbapp", "bitMap", "get", "src_mb_bitget")
+	methodSource("p/mbapp", "bitMap", "set", "src_mb_bitset")
+
 	// C02 / C03 / C06: P2PKE constants and the readiness guards as truth tables
 	constInt("p/p2pke", "MaxNonce", "ke_max_nonce")
 	constInt("p/p2pke", "noncePostHandshake", "ke_nonce_post_handshake")
